@@ -65,7 +65,13 @@ func genC14(seed uint64, tier string) any {
 		p.Procs = append(p.Procs, ops())
 	}
 	for i := 0; i < nd; i++ {
-		p.Daemon = append(p.Daemon, ops())
+		dops := ops()
+		for j := range dops {
+			if r.Bool(0.25) {
+				dops[j] = "peek" // what the daemon would report right now (its in-memory view, no file access)
+			}
+		}
+		p.Daemon = append(p.Daemon, dops)
 	}
 	return p
 }
@@ -200,6 +206,12 @@ func runC14(t *testing.T, planAny any, res *simnet.Result) {
 		runReal(t, p.Real, "c14", res)
 		return
 	}
+	runStatusHistory(t, p, "c14", res)
+}
+
+// runStatusHistory runs one scheduled history of status operations (also used by C13 for what the daemon reports
+// from its in-memory view of a unit).
+func runStatusHistory(t *testing.T, p *C14Plan, prop string, res *simnet.Result) {
 	runDir := simwork.NewRunDir()
 	defer simwork.RemoveRunDir(runDir)
 	// no simulated clock is needed here: nothing in this protocol waits for time
@@ -235,6 +247,14 @@ func runC14(t *testing.T, planAny any, res *simnet.Result) {
 		}
 	}
 	sched := simwork.NewSched(res.Seed)
+	sched.MutexFree = func() bool {
+		l := theUnit.GetStatusLock()
+		if !l.TryLock() {
+			return false
+		}
+		l.Unlock()
+		return true
+	}
 	verifhook.SetStepHandler(sched.Step)
 	defer verifhook.SetStepHandler(nil)
 	var hmu sync.Mutex
@@ -330,6 +350,11 @@ func runC14(t *testing.T, planAny any, res *simnet.Result) {
 					if err := theUnit.LastUpdateError(); err != nil {
 						out.Err = err.Error()
 					}
+				case "peek":
+					theUnit.GetStatusLock().RLock()
+					cp := theUnit.GetStatusCopy()
+					theUnit.GetStatusLock().RUnlock()
+					out.Counts, out.Basic, out.Detail = counts(cp.ExtraData), int(cp.StdoutSize), cp.Detail
 				default:
 					if err := theUnit.Load(); err != nil {
 						out.Err = err.Error()
@@ -392,6 +417,62 @@ func runC14(t *testing.T, planAny any, res *simnet.Result) {
 		if final.WorkType != "inproc" && !p.Fresh {
 			res.Violate("c14:field-wiped", "the work type written at creation was wiped: %q", final.WorkType)
 		}
+	}
+	// what the daemon reports from memory never goes back: neither the size counter nor its own goroutines' updates
+	{
+		var views []porcupine.Operation
+		var rest []porcupine.Operation
+		for _, op := range history {
+			if in := op.Input.(c14In); in.Op == "peek" || (in.Op == "load" && strings.HasPrefix(in.Owner, "d")) {
+				views = append(views, op)
+			}
+			if op.Input.(c14In).Op != "peek" {
+				rest = append(rest, op)
+			}
+		}
+		sort.Slice(views, func(i, j int) bool { return views[i].Call < views[j].Call })
+		for i, a := range views {
+			for _, b := range views[i+1:] {
+				if b.Call <= a.Return {
+					continue // overlapping: no order between them
+				}
+				ao, bo := a.Output.(c14Out), b.Output.(c14Out)
+				if ao.Err != "" || bo.Err != "" {
+					continue
+				}
+				if bo.Basic < ao.Basic {
+					res.Violate(prop+":reported-size-shrank", "the daemon's view of the unit showed size %d (operation [%d,%d]) and later size %d (operation [%d,%d])", ao.Basic, a.Call, a.Return, bo.Basic, b.Call, b.Return)
+				}
+				for o, n := range ao.Counts {
+					if strings.HasPrefix(o, "d") && bo.Counts[o] < n {
+						res.Violate(prop+":in-memory-update-lost", "the daemon's view showed %d updates of its own goroutine %s and later %d", n, o, bo.Counts[o])
+					}
+				}
+			}
+			if len(res.Violations) > 0 {
+				break
+			}
+		}
+		// an update made by a goroutine of the daemon is in the daemon's view from the moment it returns
+		for _, v := range views {
+			vo := v.Output.(c14Out)
+			if vo.Err != "" {
+				continue
+			}
+			done := map[string]int{}
+			for _, op := range history {
+				in := op.Input.(c14In)
+				if in.Op == "inc" && strings.HasPrefix(in.Owner, "d") && op.Return < v.Call && op.Output.(c14Out).Err == "" {
+					done[in.Owner]++
+				}
+			}
+			for o, n := range done {
+				if vo.Counts[o] < n && len(res.Violations) == 0 {
+					res.Violate(prop+":in-memory-update-lost", "goroutine %s of the daemon had completed %d updates, yet the daemon's view afterwards shows %d", o, n, vo.Counts[o])
+				}
+			}
+		}
+		history = rest
 	}
 	if len(res.Violations) == 0 && len(history) > 0 {
 		model := c14Model
